@@ -76,7 +76,11 @@ func (c RCase) effExpiry() int64 {
 		e = int64(c.CfgExpiry)
 	}
 	if c.End == "disconnect_new_expiry" {
+		// the value a DISCONNECT brings replaces the requested one; the configured maximum holds for it as well
 		e = int64(c.NewExpiry)
+		if e > int64(c.CfgExpiry) {
+			e = int64(c.CfgExpiry)
+		}
 	}
 	return e
 }
@@ -408,6 +412,8 @@ func resumeCases(rng *rand.Rand, n int) []RCase {
 		{V: 5, CfgExpiry: 7200, ReqExpiry: 3600, End: "disconnect_new_expiry", NewExpiry: 1, OfflineMs: 1900},             // lowered: gone before the CONNECT value
 		{V: 5, CfgExpiry: 7200, ReqExpiry: 0, End: "disconnect_refused_expiry", NewExpiry: 30, OfflineMs: 100},             // refused DISCONNECT: the session ends as CONNECT said
 		{V: 5, CfgExpiry: 7200, ReqExpiry: -1, End: "disconnect_refused_expiry", NewExpiry: 3600, OfflineMs: 100},          //
+		{V: 5, CfgExpiry: 2, ReqExpiry: 1, End: "disconnect_new_expiry", NewExpiry: 3600, OfflineMs: 2900},                // raised beyond the configured maximum: capped
+		{V: 5, CfgExpiry: 2, ReqExpiry: 1, End: "disconnect_new_expiry", NewExpiry: 3600, OfflineMs: 1100},                // ... but raised (1 -> 2 s)
 		{V: 5, CfgExpiry: 2, ReqExpiry: 3600, End: "disconnect", OfflineMs: 2900},                                         // capped by the configuration
 		{V: 5, CfgExpiry: 7200, ReqExpiry: 3600, End: "disconnect", OfflineMs: 100, Sweep: true},
 	}
@@ -452,10 +458,7 @@ func resumeCases(rng *rand.Rand, n int) []RCase {
 					c.NewExpiry = []uint32{1, 30, 3600}[rng.Intn(3)]
 				}
 			} else {
-				c.NewExpiry = []uint32{0, 1, 2, 3}[rng.Intn(4)]
-				if int64(c.NewExpiry) > int64(c.CfgExpiry) {
-					c.NewExpiry = c.CfgExpiry
-				}
+				c.NewExpiry = []uint32{0, 1, 2, 3, 3600, 0xFFFFFFFF}[rng.Intn(6)]
 			}
 		}
 		E := c.effExpiry()
